@@ -214,6 +214,18 @@ impl Check for C11 {
                 let mut all = items.clone();
                 all.extend(ritems.clone());
                 cases.push(defined_case(format!("s := {}\nt := {}\nprint(s + t)\n", l, r), render_list(&all), "list concatenation"));
+                // the sum is a new list: writing through it changes neither operand
+                if n + m > 0 {
+                    let mut after = all.clone();
+                    after[0] = "99".to_string();
+                    cases.push(defined_case(
+                        format!("s := {}\nt := {}\nz := s + t\nprint(z === s)\nprint(z === t)\nz[0] = 99\nprint(z)\nprint(s)\nprint(t)\n", l, r),
+                        format!("false\nfalse\n{}{}{}", render_list(&after), render_list(&items), render_list(&ritems)),
+                        "list concatenation result is fresh",
+                    ));
+                } else {
+                    cases.push(defined_case(format!("s := {}\nt := {}\nz := s + t\nprint(z === s)\nprint(z === t)\n", l, r), "false\nfalse\n".to_string(), "list concatenation result is fresh"));
+                }
                 for i in 0..m {
                     cases.push(defined_case(
                         format!("s := {}\nt := {}\nprint((s + t)[{} + {}] == t[{}])\n", l, r, n, i, i),
